@@ -115,6 +115,17 @@ fn sources(out: &mut String, e: &dyn core::error::Error) {
     }
 }
 
+/// Any error value of the crate, owned: Debug, Display and `source()` chain of the value itself
+/// and of the crate-wide `tz::Error` it converts into (the conversion exists in every feature set).
+pub fn anyerr<E: core::error::Error + Into<Error>>(out: &mut String, e: E) {
+    let _ = write!(out, "Err({e:?} '{e}'");
+    sources(out, &e);
+    let u: Error = e.into();
+    let _ = write!(out, " as-Error {u:?} '{u}'");
+    sources(out, &u);
+    out.push(')');
+}
+
 pub fn tzerr(out: &mut String, e: &TzError) {
     let _ = write!(out, "Err(Tz:{e:?} '{e}'");
     sources(out, e);
